@@ -79,19 +79,53 @@ Proof.
     rewrite record_fold_notin by exact I. rewrite Hs. apply dblookup_dbupd_eq.
 Qed.
 
+(* the purge (F28): rows of the task for nodes outside [ks] disappear, nothing else changes *)
+Lemma dbpurge_other t ks t' k m : t' <> t -> dblookup t' k (dbpurge t ks m) = dblookup t' k m.
+Proof.
+  intros Hne. induction m as [|[[a b] v] m IH]; simpl; auto.
+  destruct (N.eqb t a && negb (memN b ks)) eqn:D; simpl.
+  - apply andb_true_iff in D. destruct D as [D _]. apply N.eqb_eq in D. subst a.
+    replace (N.eqb t' t) with false by (symmetry; apply N.eqb_neq; exact Hne). simpl. exact IH.
+  - rewrite IH. reflexivity.
+Qed.
+
+Lemma dbpurge_in t ks k m : In k ks -> dblookup t k (dbpurge t ks m) = dblookup t k m.
+Proof.
+  intros Hin. induction m as [|[[a b] v] m IH]; simpl; auto.
+  destruct (N.eqb t a && negb (memN b ks)) eqn:D; simpl.
+  - apply andb_true_iff in D. destruct D as [_ D]. apply negb_true_iff, memN_false_In in D.
+    destruct (N.eqb t a && N.eqb k b) eqn:Q; [|exact IH].
+    apply andb_true_iff in Q. destruct Q as [_ Q]. apply N.eqb_eq in Q. subst b. contradiction.
+  - rewrite IH. reflexivity.
+Qed.
+
+Lemma dbpurge_notin t ks k m : ~ In k ks -> dblookup t k (dbpurge t ks m) = None.
+Proof.
+  intros Hn. induction m as [|[[a b] v] m IH]; simpl; auto.
+  destruct (N.eqb t a && negb (memN b ks)) eqn:D; simpl; [exact IH|].
+  destruct (N.eqb t a && N.eqb k b) eqn:Q; [|exact IH].
+  apply andb_true_iff in Q. destruct Q as [Q1 Q2]. apply N.eqb_eq in Q2. subst b.
+  rewrite Q1 in D. simpl in D. apply negb_false_iff, memN_In in D. contradiction.
+Qed.
+
 Theorem record_states_other E w t t' k :
   t' <> tid t -> dblookup t' k (db (record_states E w t)) = dblookup t' k (db w).
-Proof. intros H. unfold record_states. simpl. apply record_fold_other. exact H. Qed.
+Proof.
+  intros H. unfold record_states. simpl. rewrite record_fold_other by exact H. apply dbpurge_other. exact H.
+Qed.
 
 Theorem record_states_row E w t k s :
   In k (neighbours E t) -> state_of w t k = Some s ->
   dblookup (tid t) k (db (record_states E w t)) = Some s.
 Proof. intros H1 H2. unfold record_states. simpl. apply record_fold_in; auto. Qed.
 
+(* after recording, the task has rows for its neighbours only *)
 Theorem record_states_notin E w t k :
   ~ In k (neighbours E t) ->
-  dblookup (tid t) k (db (record_states E w t)) = dblookup (tid t) k (db w).
-Proof. intros H. unfold record_states. simpl. apply record_fold_notin. exact H. Qed.
+  dblookup (tid t) k (db (record_states E w t)) = None.
+Proof.
+  intros H. unfold record_states. simpl. rewrite record_fold_notin by exact H. apply dbpurge_notin. exact H.
+Qed.
 
 Lemma state_of_record E w t t2 k : state_of (record_states E w t) t2 k = state_of w t2 k.
 Proof. reflexivity. Qed.
